@@ -33,9 +33,15 @@ pub const POOL: &[(&str, &str)] = &[
     ("\\d{2,3}", ""),
     ("ab", "q"),
     ("(?:(a)|b)+\\1?", ""),
+    // letters whose code points differ by 0x10000 / share low bits (Cyrillic U+0400.. vs Deseret
+    // U+10400..): per-thread or per-process caches keyed by truncated values would mix them up
+    ("\u{10400}+", "i"),
+    ("ш\u{10428}?", "i"),
+    ("[Ѐ-ш]+", "i"),
+    ("a", "i"),
 ];
 
-pub const INPUTS: &[&str] = &["", "a", "ab", "aab", "abcd", "aabbcc", "a\nb", "  word\nb", "αβγ a", "дaÀ", "xyz", "123 4567", "abab", "aAbB", "aac", "a\nc", "caab", "bbb"];
+pub const INPUTS: &[&str] = &["Ш\u{10428}", "\u{10400}ѐ", "Ѐш\u{10428}\u{10400}", "A\u{10041}", "\u{10041}a", "", "a", "ab", "aab", "abcd", "aabbcc", "a\nb", "  word\nb", "αβγ a", "дaÀ", "xyz", "123 4567", "abab", "aAbB", "aac", "a\nc", "caab", "bbb"];
 
 #[derive(Clone, Debug, PartialEq)]
 enum Res {
@@ -245,6 +251,32 @@ impl Monitor for C18 {
                 Err(e) => return Outcome::Violated(vec![Finding::new("pool_pattern_failed", e, "the pool patterns compile")]),
             };
             expected.push(run_op(&re, op));
+        }
+        // the fresh-object results must themselves not depend on what this thread or process did
+        // before: for is_match calls on pool patterns outside the known-defect regions the reference
+        // model gives a second, history-free opinion
+        for (op, exp) in ops.iter().zip(expected.iter()) {
+            if let (Kind::IsMatch, Res::Bool(got)) = (&op.kind, exp) {
+                let (p, f) = POOL[pool_idx[op.re]];
+                if f.contains('q') {
+                    continue;
+                }
+                if let crate::grammar::Parsed::Valid(ast) = crate::grammar::parse(p, false, false) {
+                    if ast.has_looping_nullable() || ast.has_min0_variable_greedy_repeat() || ast.has_group_in_loop() {
+                        continue;
+                    }
+                    let input: Vec<char> = op.input.chars().collect();
+                    if f.contains('i') && input.iter().any(|x| !crate::uoracle::case_regular(*x)) {
+                        continue;
+                    }
+                    if let Ok(want) = super::c01::expected_is_match(&ast, crate::refmodel::Flags::parse(f), &input) {
+                        obs.count("fresh_results_cross_checked_with_reference");
+                        if want != *got {
+                            return Outcome::Violated(vec![Finding::new("fresh_object_result_differs_from_reference", format!("{}", got), format!("{} ({})", want, describe(op, &pool_idx)))]);
+                        }
+                    }
+                }
+            }
         }
         // re-running gives the same answer (fresh object again)
         for (op, exp) in ops.iter().zip(expected.iter()).step_by(7) {
